@@ -20,7 +20,7 @@ META = {
                    "elements; same for boxes and for the safe fallback path. The model is tied to /repo on every run: the real "
                    "fallible_map_vec/box (cfg(chalk_verif) re-export) are run on drop-logging element types (two identical-layout "
                    "pairs, one element type folded to itself through the real TypeFoldable::try_fold_with impls of Vec<T>/Box<T> "
-                   "with a scripted failing folder, three non-identical pairs incl. same-size/different-alignment, a ZST pair) under a watching global "
+                   "with a scripted failing folder, four non-identical pairs incl. same size with higher AND with lower alignment of U, a ZST pair) under a watching global "
                    "allocator for ALL lengths 0..N, every failure position, both modes, and boxes; the observed log must equal "
                    "the machine's log evaluated inside Coq."),
     "level_note": ("Trusted: Coq kernel; the meaning given to ptr::read / ptr::write / drop_in_place / Vec::from_raw_parts / "
@@ -34,13 +34,33 @@ META = {
     "assumptions": [
         "ptr::read/ptr::write/drop_in_place/from_raw_parts behave as the abstract machine's primitives (ownership level)",
         "the mapper either returns Ok with a value, or fails having dropped the element it was given (what a TypeFolder does)",
-        "correspondence is exhaustive only up to the stated length bound and for the seven element-type pairs of the harness",
+        "correspondence is exhaustive only up to the stated length bound and for the eight element-type pairs of the harness",
     ],
     "quick_s": 30, "thorough_s": 600,
 }
 
-VEC_VARIANTS = ["Same", "Same4", "Fold", "DiffSmall", "DiffBig", "DiffAlign", "Zst"]
-LAYOUT = {"Same": "LSame", "Same4": "LSame", "Fold": "LSame", "DiffSmall": "LDiff", "DiffBig": "LDiff", "DiffAlign": "LDiff", "Zst": "LZst"}
+VEC_VARIANTS = ["Same", "Same4", "Fold", "DiffSmall", "DiffBig", "DiffAlign", "DiffAlignDown", "Zst"]
+# element types (names as printed by `mem layouts`) of each pair; which path a pair must take is
+# NOT tabulated here: the Coq model decides it from the measured sizes/alignments with the
+# layout predicate of in_place.rs (Mem.InPlace.classify)
+PAIR = {"Same": ("T16", "U16"), "Same4": ("T8", "U8"), "Fold": ("T16", "T16"), "DiffSmall": ("T16", "U8"),
+        "DiffBig": ("T16", "U32B"), "DiffAlign": ("T8", "U8A"), "DiffAlignDown": ("T16", "U16A4"), "Zst": ("TZ", "UZ")}
+LAYOUTS = {}   # filled by check_layouts(): type name -> (size, align)
+
+
+def pair_layout(variant):
+    t, u = PAIR[variant]
+    return LAYOUTS[t] + LAYOUTS[u]
+
+
+def path_of(variant):
+    """python reading of the layout test (used only by py_property)"""
+    st, al, su, au = pair_layout(variant)
+    if st == 0:
+        return "LZst"
+    return "LSame" if (st == su and al == au) else "LDiff"
+
+
 OFF = 1000
 MODES = {"Err": "RErr", "Panic": "RPanic"}
 
@@ -71,7 +91,8 @@ def harness_line(c):
 def coq_case(c):
     ids = case_ids(c)
     fail = "NoFail" if c["pos"] is None else ("FailAt", ids[c["pos"]], MODES[c["mode"]])
-    return ("Case", "KVec" if c["kind"] == "Vec" else "KBox", LAYOUT[c["variant"]], ids, sx.Nat(c["extra"]), OFF, fail)
+    st, al, su, au = pair_layout(c["variant"])
+    return ("TCase", "KVec" if c["kind"] == "Vec" else "KBox", st, al, su, au, ids, sx.Nat(c["extra"]), OFF, fail)
 
 
 def case_key(c):
@@ -117,12 +138,15 @@ def py_property(c, events):
     ids = case_ids(c)
     n = len(ids)
     zst = c["variant"] == "Zst"
-    inplace = LAYOUT[c["variant"]] == "LSame"
+    inplace = path_of(c["variant"]) == "LSame"
     heap = (not zst) and (c["kind"] == "Box" or n + c["extra"] > 0)
     nbad = sum(1 for e in events if e == "OBad")
     if nbad:
         problems.append("%d bad memory event(s): drop of a value with a foreign/poisoned tag (type confusion, freed or "
                         "uninitialised memory), double free or wrong-layout free of the input buffer" % nbad)
+    if not inplace and "OHandOver" in events:
+        problems.append("the input buffer was re-used for the result although T and U do not have identical layouts "
+                        "(size, align of T, U = %r): it is then released with a layout it was not allocated with" % (pair_layout(c["variant"]),))
     rets = [e[1] for e in events if sx.head(e) == "OReturn" and isinstance(e, tuple)]
     if len(rets) != 1:
         undecided.append("expected exactly one return, got %r" % (rets,))
@@ -179,12 +203,15 @@ def check_layouts():
     v = sx.parse_sexp(out.strip()) if rc == 0 and out.strip() else None
     if not v or sx.head(v) != "Layouts":
         raise core.CheckFailure("mem layouts failed: %s %s" % (out, err))
-    t16, u16, t8, u8, u8a, u32b, tz, uz = [tuple(x) for x in v[1:]]
-    ok = (t16 == u16 and t8 == u8 and t16 != u8 and t16 != u32b and t8[0] == u8a[0] and t8[1] != u8a[1]
+    t16, u16, t8, u8, u8a, u32b, tz, uz, u16a4 = [tuple(x) for x in v[1:]]
+    ok = (t16 == u16 and t8 == u8 and t16 != u8 and t16 != u32b and t8[0] == u8a[0] and t8[1] < u8a[1]
+          and t16[0] == u16a4[0] and t16[1] > u16a4[1]
           and tz[0] == 0 and uz[0] == 0 and t16[0] > 0 and t8[0] > 0)
     if not ok:
         raise core.CheckFailure("element types of the harness do not have the assumed layouts: %r" % (v,))
-    return {"T16": t16, "U16": u16, "T8": t8, "U8": u8, "U8A": u8a, "U32B": u32b, "TZ": tz, "UZ": uz}
+    LAYOUTS.clear()
+    LAYOUTS.update({"T16": t16, "U16": u16, "T8": t8, "U8": u8, "U8A": u8a, "U32B": u32b, "TZ": tz, "UZ": uz, "U16A4": u16a4})
+    return dict(LAYOUTS)
 
 
 def run_cases(ctx, cases, tag):
@@ -203,20 +230,20 @@ def correspondence(ctx, results, tag):
     idx = [i for i, r in enumerate(results) if r[2] is not None]
     pairs = [(sx.Pair(coq_case(results[i][0]), results[i][2]), True) for i in idx]
     shard = 200 if ctx.quick else 400
-    sb = core.coq_mismatches(ctx.work, tag + "_strict", IMPORTS, fn="agree_strict", eqb="Bool.eqb",
-                             in_ty="case * list oevent", out_ty="bool", pairs=pairs, shard=shard)
+    sb = core.coq_mismatches(ctx.work, tag + "_strict", IMPORTS, fn="agree_strict_t", eqb="Bool.eqb",
+                             in_ty="tcase * list oevent", out_ty="bool", pairs=pairs, shard=shard)
     strict_bad = [idx[j] for j in sb]
     agree_bad = []
     if sb:
-        ab = core.coq_mismatches(ctx.work, tag + "_agree", IMPORTS, fn="agree", eqb="Bool.eqb",
-                                 in_ty="case * list oevent", out_ty="bool", pairs=[pairs[j] for j in sb], shard=shard)
+        ab = core.coq_mismatches(ctx.work, tag + "_agree", IMPORTS, fn="agree_t", eqb="Bool.eqb",
+                                 in_ty="tcase * list oevent", out_ty="bool", pairs=[pairs[j] for j in sb], shard=shard)
         agree_bad = [idx[sb[j]] for j in ab]
     return strict_bad, agree_bad
 
 
 def model_log(ctx, c, tag="model"):
     try:
-        return core.coq_eval(ctx.work, tag, IMPORTS, ["run_case %s" % sx.to_coq(coq_case(c))])[0]
+        return core.coq_eval(ctx.work, tag, IMPORTS, ["run_case (case_of %s)" % sx.to_coq(coq_case(c))])[0]
     except core.CheckFailure as e:
         return "<coq evaluation failed: %s>" % str(e)[-300:]
 
@@ -285,7 +312,7 @@ def run(ctx):
     for c, o, ev, whyc in results:
         ctx.count("%s/%s" % (c["kind"], c["variant"]), case_key(c), nontrivial=c["n"] >= 1)
     wanted = [("Vec", "Same", 5, 0, 3, "Panic"), ("Vec", "Same4", 4, 3, 0, "Err"), ("Vec", "Same", 3, 0, None, None),
-              ("Vec", "DiffAlign", 4, 0, 2, "Err"), ("Vec", "Fold", 4, 0, 1, "Panic"), ("Vec", "Zst", 3, 0, 1, "Panic"), ("Box", "Same", 1, 0, 0, "Panic")]
+              ("Vec", "DiffAlignDown", 4, 0, 2, "Err"), ("Vec", "Fold", 4, 0, 1, "Panic"), ("Vec", "Zst", 3, 0, 1, "Panic"), ("Box", "Same", 1, 0, 0, "Panic")]
     for c, o, ev, _ in results:
         if (c["kind"], c["variant"], c["n"], c["extra"], c["pos"], c["mode"]) in wanted:
             ctx.sample({"case": harness_line(c), "coq_case": sx.to_coq(coq_case(c)), "real_log": o})
@@ -360,6 +387,7 @@ def replay(ctx, obj):
         print("replay object has no case (proof / infrastructure failure): re-run ./vcheck C27")
         return 1
     core.build_harness(bins=["mem"])
+    check_layouts()
     line = harness_line(c)
     o = core.run_harness("mem", [line], args=["run"], shards=1, timeout=120)[0]
     print("case      :", case_key(c))
